@@ -592,7 +592,9 @@ func c15Run(id int, b c15Beh, conc c15Conc, root string, _ []string) (res c15Res
 				return fail("step %d retain copy: %v", i, err)
 			}
 			if err := h.Truncate(conc.ts(s.M)); err != nil {
-				return fail("step %d Truncate: %v", i, err)
+				// the model only generates truncations the head must be able to perform
+				res.viol = append(res.viol, [2]string{"truncate:error", fmt.Sprintf("behaviour %d step %d: Head.Truncate(%d) fails: %v", id, i, s.M, err)})
+				return res
 			}
 			T = s.M
 			first, last, err := wlog.Segments(wdir)
